@@ -28,6 +28,12 @@ let cres_str f = function COk a -> f a | ClassErr -> "ClassErr"
 let props_str ((t, nc), size) = Printf.sprintf "%s %d %d" (talg_str t) (int_of_z nc) (int_of_z size)
 let terms_str l = String.concat ";" (List.map (fun ((t, size), m2) -> Printf.sprintf "%s,%d,%d" (talg_str t) (int_of_z size) (int_of_z m2)) l)
 
+let split c s = if s = "-" then [] else String.split_on_char c s
+let morph_of s = match String.split_on_char ':' s with
+  | [legs; deps] -> (List.map (fun l -> List.map pstr_of_string (split '.' l)) (split ',' legs), List.map pstr_of_string (split ',' deps))
+  | _ -> failwith "bad morph"
+let morphl_of s = List.map morph_of (split '/' s)
+
 let handle (toks : string list) : string =
   match toks with
   | ["sign"; p; q] -> res_str gi_str (sign_code (pstr_of_string p) (pstr_of_string q))
@@ -58,6 +64,12 @@ let handle (toks : string list) : string =
   | ["algebra"; ms] -> cres_str terms_str (algebra_terms (morphs_of ms))
   | ["dladim"; ms] -> cres_str (fun z -> string_of_int (int_of_z z)) (dla_dim (morphs_of ms))
   | ["dladim_old"; ms] -> cres_str (fun z -> string_of_int (int_of_z z)) (dla_dim_old (morphs_of ms))
+  | ["reduction"; n; gens; ms] ->
+      let v = reduction_check_strs (nat_of_int (int_of_string n)) (List.map pstr_of_string (split ',' gens)) (morphl_of ms) in
+      Printf.sprintf "shape=%s acct=%s deps=%s closure=%s comps=%s" (bool_str v.v_shape) (bool_str v.v_acct) (bool_str v.v_deps) (bool_str v.v_closure) (bool_str v.v_comps)
+  | ["shapeacct"; gens; ms] ->
+      let (a, b) = shape_acct_strs (List.map pstr_of_string (split ',' gens)) (morphl_of ms) in
+      Printf.sprintf "shape=%s acct=%s" (bool_str a) (bool_str b)
   | _ -> "ERR unknown request"
 
 let () =
